@@ -690,8 +690,15 @@ func (v *Validator) validateEntryPoints() {
 		}
 		names[ep.Name] = true
 
-		// Entry point function is stored inline (not via handle).
+		// Entry point function is stored inline (not via handle): its body is
+		// validated here, like the bodies of Module.Functions.
 		fn := &v.module.EntryPoints[i].Function
+		v.context = validationContext{
+			function:       fn,
+			functionName:   ep.Name,
+			expressionUsed: make(map[ExpressionHandle]bool),
+		}
+		v.validateFunction(fn)
 
 		// Validate stage-specific requirements
 		switch ep.Stage {
